@@ -60,6 +60,7 @@ CONTROLS = {
          "        if (using_polytree_)\n        {\n          SetOwner(outrec, prevHotEdge->outrec);\n          outrec->is_open = false;\n        }", "CONFINE"),
     ],
     "C05": [
+        ('AddPaths lets a closed path switch the open-path flag off', 'CPP/Clipper2Lib/src/clipper.engine.cpp', '    if (is_open) has_open_paths_ = true;', '    has_open_paths_ = is_open;', 'FLAG.sticky'),
         ("DoMaxima clears the other end's pointer", 'CPP/Clipper2Lib/src/clipper.engine.cpp', '          if (IsFront(e))\n            e.outrec->front_edge = nullptr;\n          else\n            e.outrec->back_edge = nullptr;\n          e.outrec = nullptr;\n        }\n        DeleteFromAEL(e);', '          if (IsFront(e))\n            e.outrec->back_edge = nullptr;\n          else\n            e.outrec->front_edge = nullptr;\n          e.outrec = nullptr;\n        }\n        DeleteFromAEL(e);', 'T.detach'),
         ("ClipperD's closed-only Execute builds without an open target", 'CPP/Clipper2Lib/include/clipper2/clipper.engine.h', '\t\t\tPathsD dummy;\n\t\t\treturn Execute(clip_type, fill_rule, closed_paths, dummy);', '#ifdef USINGZ\n\t\t\tCheckCallback();\n#endif\n\t\t\tif (ExecuteInternal(clip_type, fill_rule, false))\n\t\t\t\tBuildPathsD(closed_paths, nullptr);\n\t\t\tCleanUp();\n\t\t\treturn succeeded_;', 'OPEN.flag'),
         ("BuildTree64 builds open pieces as closed", E, "        if (BuildPath64(outrec->pts, reverse_solution_, true, path))\n          open_paths.emplace_back(std::move(path));\n        continue;", "        if (BuildPath64(outrec->pts, reverse_solution_, false, path))\n          open_paths.emplace_back(std::move(path));\n        continue;", "OPEN.flag"),
@@ -73,6 +74,7 @@ CONTROLS = {
         ("closing vertex compared with the first vertex of the first path", E, "if (!is_open && prev_v->pt == v0->pt)", "if (!is_open && prev_v->pt == vertices->pt)", "ADD.closing-vertex"),
     ],
     "C06": [
+        ('polygon offsetting consults the raw delta', 'CPP/Clipper2Lib/src/clipper.offset.cpp', 'void ClipperOffset::OffsetPolygon(Group& group, const Path64& path)\n{\n\tpath_out.clear();', 'void ClipperOffset::OffsetPolygon(Group& group, const Path64& path)\n{\n\tpath_out.clear();\n\tif (delta_ < 0 && path.size() < 3) return;', 'OFFSET.sign'),
         ('square join pushed out by the signed delta in y', 'CPP/Clipper2Lib/src/clipper.offset.cpp', '\tptQ = TranslatePoint(ptQ, abs_delta * vec.x, abs_delta * vec.y);', '\tptQ = TranslatePoint(ptQ, abs_delta * vec.x, group_delta_ * vec.y);', 'POLY.offset'),
         ('bevel joins made as square joins', 'CPP/Clipper2Lib/src/clipper.offset.cpp', '\telse if ( join_type_ == JoinType::Bevel)\n\t\tDoBevel(path, j, k);', '\telse if ( join_type_ == JoinType::Bevel)\n\t\tDoSquare(path, j, k);', 'JOIN.dispatch'),
         ('zero delta returns before the clean-up union', 'CPP/Clipper2Lib/src/clipper.offset.cpp', '\tsolution->reserve(CalcSolutionCapacity());\n', '\tsolution->reserve(CalcSolutionCapacity());\n\tif (delta == 0) return;\n', 'OFFSET.cleanup'),
@@ -87,6 +89,7 @@ CONTROLS = {
         ("Paths64 Execute no longer clears the tree target", O, "\tsolution = &paths64;\n\tsolution_tree = nullptr;", "\tsolution = &paths64;", "TARGET.set"),
     ],
     "C19": [
+        ('the union helper keeps its clipper between calls', 'CPP/Clipper2Lib/include/clipper2/clipper.minkowski.h', '      Paths64 result;\n      Clipper64 clipper;\n      clipper.AddSubject(subjects);', '      Paths64 result;\n      static Clipper64 clipper;\n      clipper.AddSubject(subjects);', 'MINK.union'),
         ('degenerate quads skipped before the previous pattern index is advanced', 'CPP/Clipper2Lib/include/clipper2/clipper.minkowski.h', '          if (!IsPositive(quad))\n            std::reverse(quad.begin(), quad.end());', '          if (quad[0] == quad[2]) continue;\n          if (!IsPositive(quad))\n            std::reverse(quad.begin(), quad.end());', 'MINK.quad'),
         ("quads not normalised", H + "clipper.minkowski.h", "          if (!IsPositive(quad))\n            std::reverse(quad.begin(), quad.end());\n", "", "MINK.orientation"),
         ("closing edge swept for open paths", H + "clipper.minkowski.h", "      size_t delta = isClosed ? 0 : 1;", "      size_t delta = 0;", "MINK.closing-edge"),
@@ -177,6 +180,7 @@ CONTROLS = {
          "\t\tfriend class ClipperBase;\n\t\tmutable LocalMinimaList minima_list_;\n\t\tstd::vector<Vertex*> vertex_lists_;\n\t\tvoid AddLocMin", "R2b.container-read-only"),
     ],
     "C15": [
+        ('intersection point pre-set to an end point before x and y are computed', 'CPP/Clipper2Lib/include/clipper2/clipper.core.h', '    if (t <= 0.0) ip = ln1a;\n    else if (t >= 1.0) ip = ln1b;\n    else\n    {', '    ip = ln1b;\n    if (t <= 0.0) ip = ln1a;\n    else if (t < 1.0)\n    {', 'Z.out-point-fresh'),
         ('first vertex of a D path loses its z', 'CPP/Clipper2Lib/src/clipper.engine.cpp', '#ifdef USINGZ\n    path.emplace_back(lastPt.x * inv_scale, lastPt.y * inv_scale, lastPt.z);\n#else\n    path.emplace_back(lastPt.x * inv_scale, lastPt.y * inv_scale);\n#endif\n\n    while (op2 != op)', '    path.emplace_back(lastPt.x * inv_scale, lastPt.y * inv_scale);\n\n    while (op2 != op)', 'Z.carry'),
         ('RectClipLines keeps its intersection points across vertices', 'CPP/Clipper2Lib/src/clipper.rectclip.cpp', '    while (i <= highI)\n    {\n      prev = loc;\n      GetNextLocation(path, loc, i, highI);\n      if (i > highI) break;\n      Point64 ip, ip2;\n      Point64 prev_pt = path[static_cast<size_t>(i - 1)];', '    Point64 ip, ip2;\n    while (i <= highI)\n    {\n      prev = loc;\n      GetNextLocation(path, loc, i, highI);\n      if (i > highI) break;\n      Point64 prev_pt = path[static_cast<size_t>(i - 1)];', 'Z.out-point-fresh'),
         ("CheckCallback keeps a proxy that is already bound", H + "clipper.engine.h", "\t\tvoid CheckCallback()\n\t\t{\n", "\t\tvoid CheckCallback()\n\t\t{\n\t\t\tif (ClipperBase::zCallback_) return;\n", "ZCB.rebound"),
